@@ -292,6 +292,18 @@ func detGen(r *rand.Rand, tier string, n int, emit func(op string, tags ...strin
 			mk("full-cross", "mixedsafe", 66*1024+r.Intn(6*1024), t, e, 1024, pick(r, []int{0, 32, 64}), pick(r, hints), r.Intn(4)/3, allJ, allW, 3)
 		}
 	}
+	// 1b. short last block + data on which a stage barely expands: whether a stage is applied must
+	// not depend on the size or the reuse of the task's output buffer (hence not on jobs / hint)
+	for _, t := range g1Transforms {
+		for _, sh := range []string{"uniqwords", "random"} {
+			if !thorough && sh == "random" && t != "ROLZX" && t != "LZ" && t != "RLT" && t != "ZRLT" && t != "SRT" {
+				continue
+			}
+			bs := pick(r, []int{4096, 65536})
+			size := bs + bs/3 + r.Intn(64)
+			mk("short-last-block", sh, size, t, pick(r, g1LightEntropies), bs, 32, pick(r, []string{"exact", "none"}), 0, "1,2,3,4,8", "one/bs", 1)
+		}
+	}
 	// 2. every entropy codec (dataType-dependent chains in front), sampled J / partitions
 	reps = 1
 	if thorough {
